@@ -2,13 +2,11 @@ package main
 
 import (
 	"bytes"
-	"encoding/json"
 	"fmt"
 	"go/ast"
 	"go/parser"
 	"go/printer"
 	"go/token"
-	"os"
 	"path/filepath"
 	"strings"
 )
@@ -43,30 +41,6 @@ type mpaWalker struct {
 	funcs map[string]*ast.FuncDecl
 	steps []mpaStep
 	depth int
-}
-
-// mpaOverlay maps a repository file to its replacement in a go build -overlay file. Opt-in
-// (VERIF_EXTRACT_OVERLAY=1 together with VERIF_GO_OVERLAY): lean/NeoModel/Generated is shared by all
-// checks that run at the same time, so an ordinary overlay run (a development aid for ONE check) must
-// not rewrite the tables; the switch is for trying out, into a scratch -out directory, what the table
-// obligation says about a candidate change.
-func mpaOverlay(path string) string {
-	ov := os.Getenv("VERIF_GO_OVERLAY")
-	if ov == "" || os.Getenv("VERIF_EXTRACT_OVERLAY") != "1" {
-		return path
-	}
-	data, err := os.ReadFile(ov)
-	if err != nil {
-		return path
-	}
-	var o struct{ Replace map[string]string }
-	if json.Unmarshal(data, &o) != nil {
-		return path
-	}
-	if r, ok := o.Replace[path]; ok && r != "" {
-		return r
-	}
-	return path
 }
 
 func (w *mpaWalker) src(n ast.Node) string {
@@ -270,9 +244,14 @@ func mpaLeanStr(s string) string {
 }
 
 func genMempoolAdd(repo string) (string, error) {
-	path := mpaOverlay(filepath.Join(repo, "pkg/core/mempool/mem_pool.go"))
+	// with VERIF_GO_OVERLAY (go build -overlay) the table is read from the same candidate source as the harness is built against
+	path := filepath.Join(repo, "pkg/core/mempool/mem_pool.go")
+	var content any
+	if c, ok := overlayFromEnv()[path]; ok {
+		content = c
+	}
 	fset := token.NewFileSet()
-	f, err := parser.ParseFile(fset, path, nil, 0)
+	f, err := parser.ParseFile(fset, path, content, 0)
 	if err != nil {
 		return "", err
 	}
